@@ -26,15 +26,49 @@ func runR09_11(c *Ctx, r *R) {
 	if f == nil {
 		return
 	}
-	var insert ssa.Instruction
+	sa := newStatusAn(c)
+	insertIn := func(g *ssa.Function) ssa.Instruction {
+		var insert ssa.Instruction
+		for _, call := range callsIn(g, false) {
+			if l := calleeLabel(call); l == "channels.GetOrSet" || l == "channels.Set" {
+				insert = call.(ssa.Instruction)
+			}
+		}
+		return insert
+	}
+	// the insert: in receiveOpen or in an unexported helper it calls (conn.addOpened)
+	inserts := insertIn(f) != nil
 	for _, call := range callsIn(f, false) {
-		if l := calleeLabel(call); l == "channels.GetOrSet" || l == "channels.Set" {
-			insert = call.(ssa.Instruction)
+		if h := call.Common().StaticCallee(); h != nil && h.Blocks != nil && h.Pkg == f.Pkg && insertIn(h) != nil {
+			inserts = true
 		}
 	}
-	if insert == nil {
+	if !inserts {
 		r.Unk(fnKey(f)+"/insert", f.Pos(), "anchor lost: receiveOpen does not insert into the channel map")
 		return
+	}
+	// rechecked(b): every path to b passes a channelsClosed.Load() == false evaluated behind the insert
+	rechecked := func(b *ssa.BasicBlock) bool {
+		insert := insertIn(b.Parent())
+		if insert == nil {
+			return false
+		}
+		for _, alt := range backPaths(b, nil, 64) {
+			ok := false
+			for _, cd := range alt {
+				v, truth := cd.V, cd.Truth
+				if un, isNot := v.(*ssa.UnOp); isNot && un.Op == token.NOT {
+					v, truth = un.X, !truth
+				}
+				if lc, isCall := v.(*ssa.Call); isCall && !truth && calleeLabel(lc) == "channelsClosed.Load" && dominatesInstr(insert, lc) {
+					ok = true
+				}
+			}
+			if !ok {
+				return false
+			}
+		}
+		return true
 	}
 	n := 0
 	for _, call := range callsIn(f, false) {
@@ -51,23 +85,7 @@ func runR09_11(c *Ctx, r *R) {
 		}
 		n++
 		key := fmt.Sprintf("%s/recheck-before-handler#%d", fnKey(f), n)
-		good := true
-		for _, alt := range backPaths(call.Block(), nil, 64) {
-			ok := false
-			for _, cd := range alt {
-				v, truth := cd.V, cd.Truth
-				if un, isNot := v.(*ssa.UnOp); isNot && un.Op == token.NOT {
-					v, truth = un.X, !truth
-				}
-				if lc, isCall := v.(*ssa.Call); isCall && !truth && calleeLabel(lc) == "channelsClosed.Load" && dominatesInstr(insert, lc) {
-					ok = true
-				}
-			}
-			if !ok {
-				good = false
-			}
-		}
-		if good {
+		if establishedVia(sa, call.Block(), rechecked, 0) {
 			r.OK(key, call.Pos(), "the handler is started only after channelsClosed was re-checked behind the insert")
 		} else {
 			r.Bad(key, call.Pos(), "the channel opened by the peer is handed to a handler without re-checking channelsClosed after it was inserted: when the send loop fails first, closeChannels sweeps the map while the receive loop still handles buffered frames - a channel inserted behind the sweep is never freed, its context is never cancelled and its handler waits for ever on a closed connection")
